@@ -899,6 +899,11 @@ func (db *SpecDB) ParseSpecTextIn(lines []string, srcs []string, pkg string) err
 				return fmt.Errorf("%s: mark outside lemma", l.src)
 			}
 			curLemma.Steps = append(curLemma.Steps, LemmaStep{Kind: "mark"})
+		case "havoc":
+			if curLemma == nil {
+				return fmt.Errorf("%s: havoc outside lemma", l.src)
+			}
+			curLemma.Steps = append(curLemma.Steps, LemmaStep{Kind: "havoc", Text: rest, C: Clause{Src: l.src}})
 		case "in":
 			if curLemma == nil {
 				return fmt.Errorf("%s: 'in' outside lemma", l.src)
